@@ -88,7 +88,7 @@ def _group_measures(mesh):
 
 
 def _coord_scale(X, ops):
-    return float(np.abs(X).max() + cg.motion_scale(ops) + 1.0)
+    return float(np.abs(X).max() + cg.motion_scale(ops))
 
 
 def _mirrored(recipe, ops) -> bool:
@@ -125,7 +125,7 @@ def measure_cases(draw):
 
 
 def check_measure_motion(case, rec):
-    r, ops = case["recipe"], case["ops"]
+    r, ops = case["recipe"], cg.scale_ops(case["ops"], gm.length_unit(case["recipe"]))
     dim = gm.dim_of(r["elemType"])
     mesh = gm.build(r)
     types = gm.mesh_types(mesh)
@@ -257,7 +257,7 @@ def normals2d_cases(draw, out):
 
 
 def check_normals_2d(case, rec):
-    r, ops = case["recipe"], case["ops"]
+    r, ops = case["recipe"], cg.scale_ops(case["ops"], gm.length_unit(case["recipe"]))
     mesh = gm.build(r)
     types = gm.mesh_types(mesh)
     # exact regions from the counter-clockwise version of the contour
@@ -314,7 +314,7 @@ def normals3d_cases(draw):
 
 
 def check_normals_3d(case, rec):
-    r, ops, source = case["recipe"], case["ops"], case["source"]
+    r, ops, source = case["recipe"], cg.scale_ops(case["ops"], gm.length_unit(case["recipe"])), case["source"]
     mesh = gm.build(dict(r, verts=r["verts"][::-1]) if case.get("rev") else r)
     types = gm.mesh_types(mesh)
     rec.label("normals3d:contour_cw" if case.get("rev") else "normals3d:contour_ccw")
@@ -481,7 +481,7 @@ def check_point_location(case, rec):
         mesh = _warp(mesh, case["warp"])
         if not _hexa_valid(mesh):
             raise Inconclusive("warped hexahedra are not valid")
-    ops = case["ops"]
+    ops = cg.scale_ops(case["ops"], gm.length_unit(case["recipe"]))
     if ops and (len(case["queries"]) + len(ops)) % 2 == 0:
         # half of the moved cases: warm the geometric caches on the unmoved mesh first (added by the lead) - a
         # motion must invalidate them, a cold cache hides a dropped invalidation
